@@ -415,4 +415,4 @@ def _obligations():
 
 
 def obligations():
-    return _obligations() + [labels_obligation("C09"), selectors_obligation("C09"), effects_obligation("C09")]
+    return _obligations() + [labels_obligation("C09"), selectors_obligation("C09"), effects_obligation("C09"), plumbing_obligation("C09")]
